@@ -9,7 +9,7 @@ Case lines (shared with harness/c10):
   gop o<g> o<k> <op>            the same apply with command_giver = o<g> (if it is not destructed)
   adv <dt>
   sweep
-op syntax (comma separated): co,<fn>,<delay>,<tag> | cofp,<fn>,<delay>,<tag> | rmh,<tag> | rmn,<fn> | fh,<tag> | fn,<fn> | rmall |
+op syntax (comma separated): co,<fn>,<delay>,<tag> | cofp,<fn>,<delay>,<tag> | coa,.. | coafp,.. (extra arguments) | rmh,<tag> | rmn,<fn> | fh,<tag> | fn,<fn> | rmall |
   dest,o<k> | err | info | reload | usage
 -/
 import NV.Common.Proto
@@ -27,12 +27,19 @@ def parseOp (s : String) : Option Op :=
   match s.splitOn "," with
   | ["co", f, d, t] => do some (.co (← f.toNat?) (← d.toInt?) t false)
   | ["cofp", f, d, t] => do some (.co (← f.toNat?) (← d.toInt?) t true)
+  -- `coa`/`coafp`: the same call_out with three more arguments; the LPC callback checks them itself and prints an
+  -- `argmismatch` line (an `unexpected-line` verdict) when they arrive wrong; the model does not see them
+  | ["coa", f, d, t] => do some (.co (← f.toNat?) (← d.toInt?) t false)
+  | ["coafp", f, d, t] => do some (.co (← f.toNat?) (← d.toInt?) t true)
   | ["rmh", t] => some (.rmh t)
   | ["rmn", f] => do some (.rmn (← f.toNat?))
   | ["fh", t] => some (.fh t)
   | ["fn", f] => do some (.fnm (← f.toNat?))
   | ["rmall"] => some .rmall
   | ["dest", o] => do some (.dest (← parseOid o))
+  -- `destco,o<k>` (k = the object itself): destruct(this_object()) followed by a call_out that f_call_out must refuse;
+  -- the LPC side prints a line only if it was not refused; for the model this is `dest`
+  | ["destco", o] => do some (.dest (← parseOid o))
   | ["err"] => some .err
   | ["reload"] => some .reload
   | ["usage"] => some .usage
@@ -149,10 +156,15 @@ def parseEv (line : String) : Ev :=
   | t :: "r" :: "info" :: rows =>
     let rs := rows.map parseRow
     if rs.all Option.isSome then orBad do some (.info (← t.toInt?) (rs.filterMap id)) else .malformed line
-  | "err" :: _ => .note line
+  -- the only LPC errors a history can contain: error("boom ...") of a script and the function-pointer owner error;
+  -- any other error text (e.g. an efun returning a malformed value to the LPC side) is an unexpected line
+  | "err" :: "*boom" :: _ => .note line
+  | ["err", "*fp-owner-destructed"] => .note line
   | ["r", _, "do_op", "!err"] => .note line
   | ["r", _, "do_op", "!destructed"] => .note line
   | ["r", _, "set_script", "!destructed"] => .note line
+  -- the case names an object it never cloned (only shrunk cases do): says nothing about the driver
+  | ["r", _, _, "!noobj"] => .note line
   | "crash" :: _ => .crash line
   | "sanitizer" :: _ => .sanitizer line
   | [] => .note line
@@ -180,6 +192,8 @@ def Violation.render : Violation → String
   | .findNameNothingPending o f got => s!"find-name-nothing-pending owner=o{o} fn={f} got={got}"
   | .findNameAnswer o f got pending => s!"find-name-answer owner=o{o} fn={f} got={got} pending={pending}"
   | .infoMismatch missing extra => s!"info-mismatch missing={missing.map renderRow} extra={extra.map renderRow}"
+  | .usageLength len lo hi => s!"usage-length got={len} want={lo}..{hi}"
+  | .usageAllocated n len hwm => s!"usage-allocated num_call={n} length={len} most-ever-in-use={hwm}"
   | .crash l => s!"crash {l}"
   | .memoryError l => s!"memory-error {l}"
   | .unexpectedLine l => s!"unexpected-line {l}"
